@@ -10,10 +10,12 @@ pointer-to-int); the hasher is constructed by DefaultHasher::new (fixed keys); t
 the collection loop consumes every pending reply or returns an error; all_shards returns the whole shards field.
 (d) slot = id: ShardManager::new builds `shards` by pushing, inside the loop over 0..num_shards and in loop order, the shard spawned with that iteration's index as its id, so that
 `hash % len` selects the same shard id in every process lifetime (no completion-order collection).
+(f) a reader of a shard's batch stream (command handlers and engine::core::read::flow) reports end-of-stream (returns None / Ok(None)) only when the channel's recv yielded None: no path from
+recv's Some edge reaches an end-of-stream return without asking recv again (an empty batch is not the end of a shard's answer).
 Not decided: stability of DefaultHasher's algorithm across Rust releases (documented unspecified; assumption).
 """
-FLOOR = 9
-REQUIRED = ["C12.a", "C12.b", "C12.c1", "C12.c2", "C12.c3", "C12.c4", "C12.c5", "C12.d", "C12.e"]
+FLOOR = 10
+REQUIRED = ["C12.a", "C12.b", "C12.c1", "C12.c2", "C12.c3", "C12.c4", "C12.c5", "C12.d", "C12.e", "C12.f"]
 ASSUMPTIONS = ["std::collections::hash_map::DefaultHasher::new() is SipHash-1-3 with fixed zero keys in every build of the same toolchain"]
 
 NONDET = re.compile(r"(RandomState::new|RandomState::default|ahash::RandomState|ahash::AHasher::default|rand::|fastrand::|getrandom|SystemTime::now|Instant::now|thread::current|ThreadId|thread_rng|process::id|Uuid::new)")
@@ -331,3 +333,52 @@ def run(ctx):
             raise AnchorMissing("batch-stream consumers in command::handlers (found %d, 9 counted)" % n)
         return bad
     ctx.run("C12.e", "K9 LOOP", "batch-stream consumers (mergers, response writers, delta refresher)", "every batch a shard sends is consumed", e_)
+
+
+    def f_(inst):
+        # end of a shard's stream = the channel is closed; a batch (even an empty one) never ends it
+        bad, n = [], 0
+        for k in F.keys():
+            if k.startswith("bin:") or "_test" in k or "::tests::" in k or not re.search(r"command::handlers::(query|show|compare|replay)|engine::core::read::flow::", k):
+                continue
+            b = F.fn_exact(k)
+            recvs = [c for c in b.calls if not c.cleanup and re.search(r"(Receiver|QueryBatchStream|UnboundedReceiver)::recv$", c.nname)]
+            if not recvs:
+                continue
+            # blocks that set the return value to None / Ok(None)
+            none_locals = set()
+            eos = set()
+            for (bb_, j_, v_, d_) in b.aggregates("option::Option", "None"):
+                if d_ == [0] or (isinstance(d_, dict) and (d_.get("l") == 0)):
+                    eos.add(bb_)
+                else:
+                    none_locals.add(bb_)
+            for (bb_, j_, v_, d_) in b.aggregates("result::Result", "Ok"):
+                if not (d_ == [0] or (isinstance(d_, dict) and d_.get("l") == 0)):
+                    continue
+                L = b.origins(v_["o"][0])
+                if L and all(l[0] == "agg" and l[1].endswith("Option::None") for l in L):
+                    eos.add(bb_)
+            if not eos:
+                continue
+            for c in recvs:
+                es = [e for (e, v) in ok_edges(b, c) if v == "Some"]
+                if not es:
+                    continue
+                n += 1
+                short = k.split("::{closure")[0].split("::")
+                short = "::".join(short[-2:])
+                inst.sites.append(sp(b, c.bb) + " " + short + " (end-of-stream returns: %d)" % len(eos))
+                aw = b.await_of(c)
+                cut = [c.bb] + ([aw[0].bb] if aw is not None else [])
+                for e in es:
+                    seen = b.reach(e[1], cut_blocks=cut)
+                    hit = sorted(x for x in eos if x in seen)
+                    if hit:
+                        bad.append(("stream-ended-on-a-batch:%s" % short, "%s can report the end of a shard's stream after recv returned a batch (without asking recv again): whatever the shard sends after that batch (e.g. after an empty one) is dropped from the merged result" % short, sp(b, hit[0])))
+                        break
+        if n < 2:
+            raise AnchorMissing("stream readers with an end-of-stream return (found %d, 2 counted: BatchReceiver::recv, RowStream::next_row)" % n)
+        inst.detail = "readers checked: %d" % n
+        return bad
+    ctx.run("C12.f", "K1 DOM", "batch-stream readers that return end-of-stream (RowStream::next_row, ...)", "a shard's stream ends only when its channel is closed", f_)
